@@ -6,6 +6,9 @@
    directory outside /repo and /verif, apply the patch, run `VERIF_REPO=<copy> ./check <PID>`, and require
    exit 1 + a VIOLATION line + the rule id in the report (the mutant must still parse: extraction runs
    clang on it).  The scratch copy is deleted afterwards.
+3. for every behaviour-preserving variant selftest/benign/<PID>-<desc>.diff the named check must stay silent (exit 0, no VIOLATION) on the
+   patched copy; variants named ALL-<desc>.diff ("maintainer refactorings" written by sub-agents that were told to change nothing observable) are
+   run against all 20 checks, only with --all-variants or when selected by PATTERN (they take about an hour in total).
 Mutants run in parallel (-j N, default 8).
 """
 import concurrent.futures
@@ -111,6 +114,9 @@ def main():
             print("%s %s: %s" % ("DETECTED" if good else "MISSED  ", name, msg))
             ok = ok and good
     bens = sorted(glob.glob(os.path.join(VERIF, "selftest", "benign", "*.diff")))
+    if "--all-variants" not in sys.argv and not args:
+        # the ALL-* variants run all 20 checks each (about an hour in total): opt-in
+        bens = [b for b in bens if not os.path.basename(b).startswith("ALL-")]
     if args:
         bens = [b for b in bens if any(a in os.path.basename(b) for a in args)]
     with concurrent.futures.ThreadPoolExecutor(max_workers=jobs) as ex:
